@@ -1,6 +1,7 @@
 (* C20 -- A failed or inaccurate quantile-regression solve is retried, not fatal. *)
 From Coq Require Import List String Bool.
-From Elex Require Import Model.Retry Proofs.RetryProofs Gen.Retry.
+From Coq Require Import QArith.
+From Elex Require Import Base.Loss Model.Retry Model.RetryScale Proofs.RetryProofs Proofs.RetryScaleProofs Gen.Retry.
 Import ListNotations.
 Open Scope string_scope.
 
@@ -45,6 +46,21 @@ Theorem C20_fault_invisible : forall (Args Coef : Type) (solve : bool -> Args ->
   forall c, solve true a = Ok c -> fit_model (inject Args Coef solve e) a = fit_model solve a.
 Proof. exact fault_invisible. Qed.
 Print Assumptions C20_fault_invisible.
+
+(* why "solve false a = solve true a" is a fair hypothesis without regularisation: the unnormalised weights are a positive
+   multiple of the normalised ones, and rescaling the weights does not change which coefficients are optimal *)
+Theorem C20_unregularised_scale_invariant : forall (c : Q) (l : list obs) (b : Q), (0 < c)%Q ->
+  (minimises (objective 0 l) b <-> minimises (objective 0 (scale c l)) b).
+Proof. exact unregularised_scale_invariant. Qed.
+Print Assumptions C20_unregularised_scale_invariant.
+
+(* ... and why it is NOT with lambda_ > 0 (finding F20): with the same lambda_, the raw-weight problem of the retry and the
+   normalised problem of the first attempt have different optima *)
+Theorem C20_regularised_retry_refuted :
+  exists (lambda c : Q) (l : list obs) (b : Q), (0 < lambda)%Q /\ (0 < c)%Q /\
+    minimises (objective lambda (scale c l)) b /\ ~ minimises (objective lambda l) b.
+Proof. exact regularised_retry_differs. Qed.
+Print Assumptions C20_regularised_retry_refuted.
 
 (* the pre-repair retry call (tau_value=) is rejected by the signature: witness of defect F1 *)
 Theorem C20_unrepaired_call_refuted :
